@@ -237,44 +237,75 @@ End NodeInd.
 Section HtmlLaws.
   Variable ws : N -> bool.
   Variable hidden : str -> bool.
+  Variable is_head : str -> bool.
   Variable tagchar : N -> bool.   (* '<' or '>' *)
 
-  Fixpoint node_texts (n : node) : list (str * str) :=   (* (parent tag, text) in document order *)
+  (* (tags of the enclosing elements, innermost first; text) in document order.  The head of the
+     path is the XPath parent of the text node, the whole path its ancestor-or-parent axis *)
+  Fixpoint node_texts_in (path : list str) (n : node) : list (list str * str) :=
     match n with
     | Elem tag text children =>
-        (tag, text) ::
-        (fix kids (l : list (node * str)) : list (str * str) :=
+        (tag :: path, text) ::
+        (fix kids (l : list (node * str)) : list (list str * str) :=
            match l with
            | [] => []
-           | (c, tail) :: l' => node_texts c ++ (tag, tail) :: kids l'
+           | (c, tail) :: l' => node_texts_in (tag :: path) c ++ (tag :: path, tail) :: kids l'
            end) children
     end.
+  Definition node_texts (n : node) : list (list str * str) := node_texts_in [] n.
 
-  Definition keep (pt : str * str) : bool := negb (hidden (fst pt)) && nonblank ws (snd pt).
+  (* kept: the parent is not style/link/head/script, no proper ancestor is <head>, not blank *)
+  Definition keep (pt : list str * str) : bool :=
+    match fst pt with
+    | [] => false
+    | parent :: ancestors => negb (hidden parent || existsb is_head ancestors) && nonblank ws (snd pt)
+    end.
 
-  Theorem visible_spec n :
-    visible ws hidden n = map snd (filter keep (node_texts n)).
+  Theorem visible_in_spec n : forall path,
+    visible_in ws hidden is_head (existsb is_head path) n = map snd (filter keep (node_texts_in path n)).
   Proof.
-    induction n as [tag text children IH] using node_ind'.
-    cbn [visible node_texts]. cbn [filter]. unfold keep at 1. cbn [fst snd].
-    assert (Hk : forall l, Forall (fun ct => visible ws hidden (fst ct) = map snd (filter keep (node_texts (fst ct)))) l ->
+    induction n as [tag text children IH] using node_ind'. intros path.
+    cbn [visible_in node_texts_in]. cbn [filter]. unfold keep at 1. cbn [fst snd].
+    assert (Hinh : (existsb is_head path || is_head tag)%bool = existsb is_head (tag :: path)).
+    { cbn [existsb]. apply Bool.orb_comm. }
+    rewrite Hinh.
+    assert (Hk : forall l,
+      Forall (fun ct => forall path, visible_in ws hidden is_head (existsb is_head path) (fst ct)
+                                     = map snd (filter keep (node_texts_in path (fst ct)))) l ->
       (fix kids (l : list (node * str)) : list str :=
            match l with
            | [] => []
-           | (c, tail) :: l' => visible ws hidden c ++ (if negb (hidden tag) && nonblank ws tail then [tail] else []) ++ kids l'
+           | (c, tail) :: l' => visible_in ws hidden is_head (existsb is_head (tag :: path)) c
+                                ++ (if negb (hidden tag || existsb is_head path) && nonblank ws tail then [tail] else []) ++ kids l'
            end) l =
-      map snd (filter keep ((fix kids (l : list (node * str)) : list (str * str) :=
+      map snd (filter keep ((fix kids (l : list (node * str)) : list (list str * str) :=
            match l with
            | [] => []
-           | (c, tail) :: l' => node_texts c ++ (tag, tail) :: kids l'
+           | (c, tail) :: l' => node_texts_in (tag :: path) c ++ (tag :: path, tail) :: kids l'
            end) l))).
     { induction l as [|[c tail] l IHl]; intros Hl; [reflexivity|].
       inversion Hl as [|? ? Hc Hl']; subst. cbn [fst] in Hc.
-      rewrite filter_app, map_app, <- Hc. f_equal. cbn [filter]. unfold keep at 1; cbn [fst snd].
+      rewrite filter_app, map_app, <- (Hc (tag :: path)). f_equal. cbn [filter]. unfold keep at 1; cbn [fst snd].
       rewrite IHl by assumption.
-      destruct (negb (hidden tag) && nonblank ws tail); reflexivity. }
+      destruct (negb (hidden tag || existsb is_head path) && nonblank ws tail); reflexivity. }
     rewrite (Hk children IH).
-    destruct (negb (hidden tag) && nonblank ws text); reflexivity.
+    destruct (negb (hidden tag || existsb is_head path) && nonblank ws text); reflexivity.
+  Qed.
+
+  Theorem visible_spec n :
+    visible ws hidden is_head n = map snd (filter keep (node_texts n)).
+  Proof. exact (visible_in_spec n []). Qed.
+
+  (* nothing nested at any depth inside a <head> element is returned *)
+  Theorem visible_not_under_head n : forall pt,
+    In pt (node_texts n) -> existsb is_head (fst pt) = true -> (forall t, is_head t = true -> hidden t = true) ->
+    keep pt = false.
+  Proof.
+    intros [path s] _ Hh Hhid. unfold keep. cbn [fst snd] in *.
+    destruct path as [|p anc]; [reflexivity|].
+    cbn [existsb] in Hh. apply Bool.orb_true_iff in Hh. destruct Hh as [Hp|Ha].
+    - rewrite (Hhid p Hp). reflexivity.
+    - rewrite Ha, Bool.orb_true_r. reflexivity.
   Qed.
 
   Lemma join_sp_no_tag l :
@@ -290,7 +321,7 @@ Section HtmlLaws.
   Theorem html_no_tags n :
     tagchar 32%N = false ->
     Forall (fun pt => forallb (fun c => negb (tagchar c)) (snd pt) = true) (node_texts n) ->
-    forallb (fun c => negb (tagchar c)) (html_clean ws hidden n) = true.
+    forallb (fun c => negb (tagchar c)) (html_clean ws hidden is_head n) = true.
   Proof.
     intros Hsp Hall. unfold html_clean. apply join_sp_no_tag; [assumption|].
     rewrite visible_spec. apply Forall_map.
